@@ -18,13 +18,13 @@ theorem step_sticky (K : Keys) (s : State) (op : Op) (hp : s.panicked = true) : 
   cases op with
   | block h txs mf =>
     exact (blockMined_env K mf _ txs).sticky (by rw [(connectUtxo_fields s h txs).2.2.2.1]; exact hp)
-  | undo mf =>
+  | undo uh mf =>
     simp only [step]
     cases hd : disconnectUtxo s with
     | none => exact hp
     | some p =>
       obtain ⟨s', txs⟩ := p
-      exact (blockUndone_env K mf s' txs).sticky (by rw [(disconnectUtxo_fields s s' txs hd).2.2.1]; exact hp)
+      exact (blockUndoneAt_env K mf s' uh txs).sticky (by rw [(disconnectUtxo_fields s s' txs hd).2.2.1]; exact hp)
   | submitNet t tr mf => exact (step_env_pool K s _ (by intros; simp) (by intros; simp)).2.2 hp
   | submitLocal t mf => exact (step_env_pool K s _ (by intros; simp) (by intros; simp)).2.2 hp
   | tip h => exact (step_env_pool K s _ (by intros; simp) (by intros; simp)).2.2 hp
@@ -46,7 +46,7 @@ theorem run_sticky (K : Keys) : ∀ (ops : List Op) (s : State), s.panicked = tr
 
 theorem step_undoDist (K : Keys) (s : State) (op : Op) (h : UndoDist K s)
     (hb : ∀ hh txs mf, op = Op.block hh txs mf → (txs.map fun t => K.bidx t.id).Nodup) : UndoDist K (step K s op) := by
-  have key : ∀ op', (∀ h txs mf, op' ≠ Op.block h txs mf) → (∀ mf, op' ≠ Op.undo mf) → UndoDist K (step K s op') :=
+  have key : ∀ op', (∀ h txs mf, op' ≠ Op.block h txs mf) → (∀ uh mf, op' ≠ Op.undo uh mf) → UndoDist K (step K s op') :=
     fun op' h1 h2 e he => h e (by rw [(step_env_pool K s op' h1 h2).1]; exact he)
   cases op with
   | block hh txs mf =>
@@ -58,14 +58,14 @@ theorem step_undoDist (K : Keys) (s : State) (op : Op) (h : UndoDist K s)
     rcases List.mem_cons.mp he' with e1 | e1
     · rw [e1]; exact hb hh txs mf rfl
     · exact h e e1
-  | undo mf =>
+  | undo uh mf =>
     simp only [step]
     cases hd : disconnectUtxo s with
     | none => exact h
     | some p =>
       obtain ⟨s', txs⟩ := p
       intro e he
-      have he' : e ∈ s'.undo := by rw [← (blockUndone_env K mf s' txs).undo]; exact he
+      have he' : e ∈ s'.undo := by rw [← (blockUndoneAt_env K mf s' uh txs).undo]; exact he
       obtain ⟨sc, hsc⟩ := (disconnectUtxo_fields s s' txs hd).2.2.2
       exact h e (by rw [hsc]; exact List.mem_cons_of_mem _ he')
   | submitNet t tr mf => exact key _ (by intros; simp) (by intros; simp)
@@ -83,7 +83,7 @@ theorem undoOK_of_full {K : Keys} {W : Tx → Prop} {rank : TxId → Nat} {u0 : 
     (U : Univ2 K W rank u0 ν) (s : State) (op : Op) (h : Full K W u0 ν s) (alive : s.panicked = false)
     (hd : UndoDist K s) : UndoOK K s op := by
   cases op with
-  | undo mf =>
+  | undo uh mf =>
     intro s' txs hdis
     obtain ⟨e1, _, _, sc, e5⟩ := disconnectUtxo_fields s s' txs hdis
     have hmem : (txs, sc) ∈ s.undo := by rw [e5]; exact List.mem_cons_self
